@@ -4,7 +4,7 @@ ID=$1; OUT=/verif/seeded/$ID; mkdir -p $OUT; cp /tmp/seed-$ID-scratch/out/* $OUT
 python3 - "$ID" <<'PY'
 import json,sys,glob,os
 i=sys.argv[1]; p='/verif/seeded/%s/meta.json'%i; m=json.load(open(p))
-demos=sorted(glob.glob('/tmp/seed-%s-scratch/out/demo*.py'%i))+sorted(glob.glob('/tmp/seed-%s-scratch/out/demo*.sh'%i))
+demos=sorted(glob.glob('/tmp/seed-%s-scratch/out/demo*.py'%i))+sorted(glob.glob('/tmp/seed-%s-scratch/out/demo*.sh'%i))+sorted(glob.glob('/tmp/seed-%s-scratch/out/run_demo*.sh'%i))
 m['demo_cmd_agent']=m.get('demo_cmd'); d=demos[0] if demos else ''
 m['demo_cmd']=('python3 ' if d.endswith('.py') else '/tmp/seed-%s/vrun sh '%i if d.endswith('.sh') else '')+d
 json.dump(m,open(p,'w'),indent=1); print(m['demo_cmd'])
